@@ -638,7 +638,7 @@ def server_main():
                         pass
 
         def watchdog():
-            time.sleep(req["scenario"].get("watchdog", 8.0))                 # a writer that hangs (e.g. retrying for ever on a locked file) is stopped
+            time.sleep(req["scenario"].get("watchdog", 8.0) * max(1.0, os.getloadavg()[0] / 16.0))                 # a writer that hangs (e.g. retrying for ever on a locked file) is stopped
             kill()
         threading.Thread(target=watchdog, daemon=True).start()
         if kind == "sigkill":
